@@ -279,7 +279,7 @@ op_sibs(const char *id, const char *modhex, const char *names)
     struct ly_out *out = NULL;
     struct lylyb_ctx *w = NULL;
     struct ly_ht *sibling_ht = NULL;
-    size_t o, cap = strlen(names) * 2 + 512, nn = 0;
+    size_t o, cap = strlen(names) * 16 + 1024, nn = 0;
     char **res = NULL;
     int eint = 0;
 
